@@ -300,7 +300,7 @@ class Scn(object):
         self.slow = []                       # calls that took more than 20 s
         self.nhang = 0
         self.reach = {}                      # branch / configuration -> how often reached (floors in run())
-        self.call_limit = ctx.n(120., 600.)  # s per call; an entry point that has not returned by then is a `hang:` violation
+        self.call_limit = ctx.n(180., 600.)  # s per call; an entry point that has not returned by then is a `hang:` violation
         self.t0 = time.time()
         self.budget = ctx.n(140., 1500.)     # s; afterwards repetitions shrink to 1
         os.makedirs(SCRATCH, exist_ok=True)
@@ -853,30 +853,36 @@ def _dbm_p_sol(S):
 # dbm — FluidMixture
 # =====================================================================================================
 
-def _two_phase_case(S, limit=0.3, tries=40):
-    """a light + heavy hydrocarbon feed at a state where the flash (i) ends with a gas AND a liquid phase and (ii) converges
-    within `limit` seconds — input selection only (near-critical / near-bubble-point flashes of the same package take up to
-    minutes and would exhaust the run-time budget of the quick tier; the thorough tier also draws unscreened states).
-    -> (spec, FluidMixture, masses of one mole of feed, T, P)"""
+# Harness-owned table of two-phase feeds (no call into the package decides what is admitted): a supercritical light gas
+# (methane, optionally with a little ethane / nitrogen; 55-80 mol %) together with liquids far below their boiling point, at
+# 278-320 K and 2-6 MPa — far below the bubble-point pressure of such a mixture (> 10 MPa for methane / n-heptane ... n-decane at
+# these methane fractions) and far above its dew point, so gas and liquid coexist (vapour-liquid data of methane / n-alkane
+# and methane / aromatic binaries, e.g. Reamer et al. 1942, Lin et al. 1979).  Validated once off line (720 draws, all two-phase,
+# slowest flash 0.03 s); the check itself never pre-runs the flash to select a case.
+TWO_PHASE_LIGHT = [['methane'], ['methane', 'ethane'], ['methane', 'nitrogen']]
+TWO_PHASE_HEAVY = [['n-decane'], ['n-heptane'], ['toluene'], ['n-decane', 'benzene'], ['n-hexane', 'ethylbenzene'],
+                   ['n-decane', 'n-heptane', 'toluene']]
+
+
+def _two_phase_case(S):
+    """-> (spec, FluidMixture, masses of one mole of feed, T, P) of a feed that is two-phase by the table above"""
     from tamoc import dbm
     r = S.r
-    for _ in range(tries):
-        sp = fluid_spec(r, 'mixed')
-        fm = dbm.FluidMixture(list(sp['composition']))
-        m = fm.masses(np.array(sp['yk']))
-        P, _Sa, Ta = ocean_state(r)
-        T = Ta + r.choice([0., r.uniform(0., 40.)])
-        t1 = time.time()
-        try:
-            with quiet(), time_limit(limit):
-                mi, _xi, _K = fm.equilibrium(m.copy(), T, P)
-        except _Timeout:
-            continue
-        except Exception:      # noqa: BLE001  (a raising flash is found by the attempts on unscreened feeds)
-            continue
-        if time.time() - t1 <= limit and np.sum(mi[0, :]) > 0. and np.sum(mi[1, :]) > 0.:
-            return sp, fm, m, T, P
-    raise RuntimeError('no fast two-phase flash state found in %d draws' % tries)
+    L, H = r.choice(TWO_PHASE_LIGHT), r.choice(TWO_PHASE_HEAVY)
+    zl = r.uniform(0.55, 0.8)
+    wl = np.array([1.] + [r.uniform(0.05, 0.2) for _ in L[1:]])
+    wh = np.array([r.uniform(0.3, 1.) for _ in H])
+    yk = np.concatenate([wl / wl.sum() * zl, wh / wh.sum() * (1. - zl)])
+    sp = {'kind': 'mixed', 'composition': L + H, 'yk': [float(v) for v in yk], 'fp_type': 2, 'table': 'two-phase'}
+    fm = dbm.FluidMixture(list(sp['composition']))
+    return sp, fm, fm.masses(yk), r.uniform(278., 320.), r.uniform(2.e6, 6.e6)
+
+
+def _judge_table_flash(S, mi):
+    """the flash of a feed from the harness's two-phase table must report a gas AND a liquid phase (counted; obliged in run())"""
+    ok = bool(np.sum(mi[0, :]) > 0. and np.sum(mi[1, :]) > 0.)
+    S.reached('table-feed:flash-two-phase' if ok else 'table-feed:flash-SINGLE-PHASE')
+    return ok
 
 
 def _single_phase(mi):
@@ -970,8 +976,8 @@ def _flash_feed(r, fm):
 def _fm_equil(S):
     from tamoc import dbm
     r = S.r
-    for i in range(S.reps()):
-        which = ('two-phase', 'gas', 'liquid', 'unscreened')[i % 4] if S.ctx.thorough else ('two-phase', 'gas', 'liquid')[i % 3]
+    for i in range(max(S.reps(), 4)):
+        which = ('two-phase', 'gas', 'liquid', 'unscreened')[i % 4]
         if which == 'two-phase':
             sp, fm, m, T, P = _two_phase_case(S)
         else:
@@ -988,6 +994,8 @@ def _fm_equil(S):
             continue
         K = res.nan_ok if isinstance(res, NanOK) else res[2]
         S.reached('equilibrium:single-phase' if isinstance(res, NanOK) else 'equilibrium:two-phase')
+        if which == 'two-phase':
+            _judge_table_flash(S, (res.strict if isinstance(res, NanOK) else res)[0])
         if not np.any(np.isnan(K)):
             # warm start with the converged K (documented optional argument)
             S.attempt('dbm.FluidMixture.equilibrium', which + ':warm-K', dict(d, K=K),
@@ -1029,11 +1037,17 @@ def _fp_all(S):
     r = S.r
     nrep = S.reps()
     for i in range(nrep):
-        # gas, liquid and two-phase particle in turn (every tier reaches all three).  The two-phase particle sits at a state
-        # where its flash gives gas AND liquid and converges fast (_two_phase_case): every individual property method
-        # re-runs that flash
+        # gas, liquid and two-phase particle in turn (every tier reaches all three).  The two-phase particle is a feed of the
+        # harness's own two-phase table (_two_phase_case; nothing is pre-run); every sixth case is an unscreened random
+        # light + heavy mixture at an ocean state
         kind = ('gas', 'liquid', 'mixed')[i % 3]
-        if kind == 'mixed':
+        table = False
+        if kind == 'mixed' and i % 6 == 5:
+            sp = fluid_spec(r, 'mixed')
+            P, Sa, Ta = ocean_state(r)
+            T = Ta + r.choice([0., r.uniform(0., 25.)])
+        elif kind == 'mixed':
+            table = True
             sp, _fm, _m1, T, P = _two_phase_case(S)
             Sa, Ta = r.uniform(32., 36.5), T
         else:
@@ -1072,18 +1086,16 @@ def _fp_all(S):
             ('heat_transfer', lambda: fp.heat_transfer(m.copy(), T, P, Sa, Ta, st)),
             ('return_all', lambda: fp.return_all(m.copy(), T, P, Sa, Ta, st)),
         ]
-        two_phase = False
-        if kind == 'mixed':
-            with quiet():
-                mi = fp.equilibrium(m.copy(), T, P)[0]
-            two_phase = bool(np.sum(mi[0, :]) > 0. and np.sum(mi[1, :]) > 0.)
-        S.reached('FluidParticle:' + ('mixed-two-phase' if two_phase else kind))
+        two_phase = table              # by the harness's table, not by asking the package
+        S.reached('FluidParticle:' + ('mixed-two-phase' if two_phase else ('mixed-unscreened' if kind == 'mixed' else kind)))
         if two_phase:
             S.reached('FluidParticle.masses_by_diameter:mixed-two-phase')
         for nm, th in calls:
-            S.attempt('dbm.FluidParticle.' + nm, kind, d, th)
+            res_ = S.attempt('dbm.FluidParticle.' + nm, kind + (':table' if table else ''), d, th)
             if two_phase:
                 S.reached('FluidParticle.%s:mixed-two-phase' % nm)
+                if nm == 'equilibrium' and res_ is not FAILED:
+                    _judge_table_flash(S, (res_.strict if isinstance(res_, NanOK) else res_)[0])
 
 
 # =====================================================================================================
@@ -1152,8 +1164,8 @@ def _ip_all(S):
 def _dbm_helpers(S):
     from tamoc import dbm, dbm_p
     r = S.r
-    for i in range(S.reps()):
-        which = ('two-phase', 'gas', 'liquid', 'unscreened')[i % 4] if S.ctx.thorough else ('two-phase', 'gas', 'liquid')[i % 3]
+    for i in range(max(S.reps(), 4)):
+        which = ('two-phase', 'gas', 'liquid', 'unscreened')[i % 4]
         if which == 'two-phase':
             sp, fm, m, T, P = _two_phase_case(S)
         else:
@@ -1315,8 +1327,13 @@ def _dp_ic(S):
         Q = np.array([np.sum(pt.m) * pt.nb0 / pt.rho_p for pt in parts])
         lam_ave = S.attempt('dispersed_phases.bf_average', kind, dict(d, rho=rho, parm=lam),
                             lambda: dp.bf_average(parts, rho, p.g, p.rho_r, lam.copy()))
-        if lam_ave is not FAILED and lam_ave > 0.:
-            u0 = float(np.sum(Q) / (np.pi * (lam_ave * R) ** 2))
+        # every particle of these lists is buoyant, so the buoyancy-flux average of the spreading ratios lies between the smallest
+        # and the largest of them: the first guess comes from the harness's own mean, the call is made whatever bf_average gave
+        lam_h = float(np.mean([sp_['lambda_1'] for sp_ in d['particles']]))
+        u0 = float(np.sum(Q) / (np.pi * (lam_h * R) ** 2))
+        if lam_ave is FAILED:
+            lam_ave = lam_h
+        if True:
             S.attempt('dispersed_phases.wuest_ic', kind, dict(d, u_0=u0, lambda_ave=lam_ave, us=us, rho_p=rho_p, rho=rho, Q=Q, R=R, Fr_0=p.Fr_0),
                       lambda: dp.wuest_ic(u0, parts, lam, lam_ave, us, rho_p, rho, Q, R, p.g, p.Fr_0))
         S.attempt('dispersed_phases.get_chem_names', kind, d, lambda: dp.get_chem_names(parts))
@@ -1554,14 +1571,17 @@ def _any_profile(S, kinds=('array', 'world', 'ncdataset')):
     r = S.r
     kind = r.choice(list(kinds))
     if kind == 'world':
-        return ambient.Profile(None), kind, {'profile': 'world-ocean average'}
+        # depth range and variable names read by the harness from the distributed data file, not from the object
+        zw = np.loadtxt(os.path.join(common.REPO, 'tamoc', 'data', 'world_ocean_ave_ctd.dat'), comments='%')[:, 0]
+        return ambient.Profile(None), kind, {'profile': 'world-ocean average', 'z_range': [float(zw.min()), float(zw.max())],
+                                             'names': ['z', 'temperature', 'salinity', 'pressure', 'oxygen', 'oxygen_sat']}
     data, names, units, ps = _cast(r)
     if kind == 'array':
         prf = ambient.Profile(data.copy(), ztsp=names[:4], chem_names=names[4:], ztsp_units=units[:4], chem_units=units[4:])
     else:
         path = _write_cast_nc(S, data, names, units)
         prf = ambient.Profile(Dataset(path, 'a'), chem_names='all')
-    return prf, kind, {'profile': ps, 'names': names, 'route': kind}
+    return prf, kind, {'profile': ps, 'names': names, 'route': kind, 'z_range': [float(data[:, 0].min()), float(data[:, 0].max())]}
 
 
 @entry('ambient.Profile.get_values', 'ambient.Profile.get_units', 'ambient.Profile.buoyancy_frequency')
@@ -1569,11 +1589,14 @@ def _amb_query(S):
     r = S.r
     for i in range(S.reps()):
         prf, kind, d = _any_profile(S)
-        names = list(prf.f_names)
+        # the valid depth range and the variable names are the harness's own (the table it handed over / the distributed data
+        # file), not what the object reports about itself
+        zlo, zhi = d['z_range']
+        names = list(d['names'][1:])
         r.shuffle(names)
         names = names[:r.randint(1, len(names))] + r.sample(['ua', 'no_such_variable'], r.randint(0, 2))
-        zs = [r.uniform(prf.z_min, prf.z_max), np.sort(np.array([r.uniform(prf.z_min, prf.z_max) for _ in range(5)])),
-              [prf.z_min, prf.z_max], np.array([prf.z_min - 5., prf.z_max + 50.]), float(prf.z_max)]
+        zs = [r.uniform(zlo, zhi), np.sort(np.array([r.uniform(zlo, zhi) for _ in range(5)])),
+              [zlo, zhi], np.array([zlo - 5., zhi + 50.]), float(zhi)]
         for z, zk in zip(zs, ('float', 'ndarray', 'list', 'out-of-range', 'bottom')):
             S.attempt('ambient.Profile.get_values', zk, dict(d, z=z, names=names),
                       lambda z=z: prf.get_values(z.copy() if isinstance(z, np.ndarray) else z, list(names)))
@@ -1584,8 +1607,8 @@ def _amb_query(S):
         h = r.choice([0.01, 0.01, lu(r, 0.005, 0.3)])
         S.attempt('ambient.Profile.buoyancy_frequency', 'float', dict(d, z=zs[0], h=h), lambda: prf.buoyancy_frequency(zs[0], h))
         S.attempt('ambient.Profile.buoyancy_frequency', 'ndarray', dict(d, z=zs[1], h=h), lambda: prf.buoyancy_frequency(zs[1].copy(), h=h))
-        S.attempt('ambient.Profile.buoyancy_frequency', 'ends', dict(d, z=[prf.z_min, prf.z_max]),
-                  lambda: (prf.buoyancy_frequency(float(prf.z_min)), prf.buoyancy_frequency(float(prf.z_max))))
+        S.attempt('ambient.Profile.buoyancy_frequency', 'ends', dict(d, z=[zlo, zhi]),
+                  lambda: (prf.buoyancy_frequency(float(zlo)), prf.buoyancy_frequency(float(zhi))))
         prf.close_nc()
 
 
@@ -1596,7 +1619,7 @@ def _amb_modify(S):
     for i in range(S.reps()):
         # ---- append
         prf, kind, d = _any_profile(S)
-        H = float(prf.z_max)
+        H = float(d['z_range'][1])
         zc = np.linspace(0., H, r.randint(2, 12)) if r.random() < 0.7 else np.linspace(0.2 * H, 0.7 * H, 4)
         new = np.column_stack([zc, r.uniform(0.01, 0.3) * np.ones(len(zc)), 0.05 * np.cos(zc / H), 1e-4 * (1. + zc / H)])
         syms, uns = ['z', 'ua', 'va', 'tracer_b'], ['m', 'm/s', 'm/s', 'mg/l']
@@ -1624,7 +1647,8 @@ def _amb_modify(S):
         prf.close_nc()
         # ---- deeper
         prf, kind, d = _any_profile(S)
-        z_new = float(prf.z_max) + lu(r, 10., 2000.)
+        z_old = float(d['z_range'][1])
+        z_new = z_old + lu(r, 10., 2000.)
         how = r.choice(['default', 'h_N', 'N'])
         kw = {} if how == 'default' else ({'h_N': r.uniform(0.5, 1.), 'h': lu(r, 0.005, 0.2)} if how == 'h_N' else {'N': lu(r, 1e-4, 1e-2)})
         if kind == 'ncdataset':
@@ -1632,7 +1656,9 @@ def _amb_modify(S):
 
         def ext():
             prf.extend_profile_deeper(z_new, **kw)
-            return _profile_numbers(prf)
+            # queries inside the added stretch (valid by what the harness asked for, whatever the object says its range is)
+            zq = z_old + r.uniform(0.2, 0.9) * (z_new - z_old)
+            return _profile_numbers(prf), prf.buoyancy_frequency(zq), prf.get_values(zq, ['temperature', 'salinity', 'pressure'])
         S.attempt('ambient.Profile.extend_profile_deeper', kind + ':' + how, dict(d, z_new=z_new, **{k: v for k, v in kw.items() if k != 'nc_name'}), ext)
         prf.close_nc()
 
@@ -1796,13 +1822,22 @@ def _jet_fluids(r):
                 mu_oil=lu(r, 2e-4, 5e-2), sigma_oil=r.uniform(0.01, 0.04), rho=r.uniform(1020., 1060.), mu=lu(r, 1e-3, 1.8e-3))
 
 
-def _psd_numbers(m, fp_types=(0, 1)):
+def _psd_numbers(m, absent=None, S=None):
+    """median sizes and spread parameters left behind by simulate().  A phase that is not released has no spread parameters
+    ("There is no gas / liquid in this mixture"): which phase that is comes from the harness's own input (`absent`: the mass
+    flux it passed was 0).  Only where the harness cannot know it (particle_size_models.Model decides the phase split with a
+    flash) the model's d50 == 0 is taken, and every such case is counted as a skip in the evidence."""
     out = {}
     for ph in ('gas', 'oil'):
         d50 = getattr(m, 'd50_' + ph, None)
         out['d50_' + ph] = d50
-        if d50 is None or d50 == 0.:
-            continue          # "There is no gas / liquid in this mixture": the spread parameters of an absent phase mean nothing
+        if absent is not None:
+            if ph in absent:
+                continue
+        elif d50 is None or d50 == 0.:
+            if S is not None:
+                S.skip('tamoc.particle_size_models.Model.simulate', 'spread parameters of the %s phase not inspected: the model reports no %s at the release' % (ph, ph))
+            continue
         for a in ('de_max_', 'k_', 'alpha_', 'sigma_ln_'):
             if hasattr(m, a + ph):
                 out[a + ph] = getattr(m, a + ph)
@@ -1838,7 +1873,8 @@ def _psm_base(S):
         kind = '%s:%s/%s:%s/%s' % (phases, mg, pg, mo, po)
         ok = S.attempt(P + '.simulate', kind, d,
                        lambda: (mb.simulate(d0, m_gas, m_oil, model_gas=mg, model_oil=mo, pdf_gas=pg, pdf_oil=po,
-                                            Pj=lu(r, 5e5, 3e7), Tj=r.uniform(275., 350.)), _psd_numbers(mb))[1])
+                                            Pj=lu(r, 5e5, 3e7), Tj=r.uniform(275., 350.)),
+                                _psd_numbers(mb, absent=[ph for ph, q_ in (('gas', m_gas), ('oil', m_oil)) if q_ == 0.]))[1])
         if ok is FAILED:
             continue
         for fp in (0, 1):
@@ -1878,7 +1914,7 @@ def _psm_jet(S):
         d0, m = lu(r, 0.01, 1.), lu(r, 1e-2, 100.)
         d = dict(d, d0=d0, m=m, model=model, pdf=pdf)
         kind = 'fp%d:%s/%s' % (fp, model, pdf)
-        if S.attempt(P + '.simulate', kind, d, lambda: (pj.simulate(d0, m, model=model, pdf=pdf), _psd_numbers(pj))[1]) is FAILED:
+        if S.attempt(P + '.simulate', kind, d, lambda: (pj.simulate(d0, m, model=model, pdf=pdf), _psd_numbers(pj, absent=['oil' if fp == 0 else 'gas']))[1]) is FAILED:
             continue
         S.attempt(P + '.get_de_max', kind, d, lambda: pj.get_de_max())
         S.attempt(P + '.get_d50', kind, d, lambda: pj.get_d50())
@@ -1946,7 +1982,7 @@ def _psm_model(S):
         dd = dict(d, d0=d0, model_gas=mg, pdf_gas=pg, model_oil=mo_, pdf_oil=po)
         kind = '%s:%s/%s:%s/%s' % (phases, mg, pg, mo_, po)
         ok = S.attempt(P + '.simulate', kind, dd,
-                       lambda: (mo.simulate(d0, model_gas=mg, pdf_gas=pg, model_oil=mo_, pdf_oil=po), _psd_numbers(mo))[1])
+                       lambda: (mo.simulate(d0, model_gas=mg, pdf_gas=pg, model_oil=mo_, pdf_oil=po), _psd_numbers(mo, S=S))[1])
         if ok is FAILED:
             continue
         for fp in (0, 1):
@@ -2306,8 +2342,8 @@ def _bpm_scenario(S, k):
     r = S.r
     # k = 0: soluble particles of one composition, tracked into the far field in a crossflow (what the concentration-field
     # methods need); then mixtures with inert particles, inert only, liquids
-    mix = ('gas', 'gas+inert', 'oil', 'inert', 'oil+inert')[k % 5]
-    track = (k % 2 == 0)
+    # (the first two, which the quick tier runs, are tracked: soluble bubbles; inert droplets of >= 2 mm that reach the surface)
+    mix, track = (('gas', True), ('inert', True), ('gas+inert', False), ('oil', True), ('oil+inert', False))[k % 5]
     for _try in range(20):
         scn = scen_bpm.random_scenario(r, nparticles=r.randint(2, 3) if '+' in mix else r.randint(1, 3),
                                        depth=r.uniform(800., 1500.) if k % 5 == 0 else r.uniform(300., 1500.),
@@ -2320,6 +2356,9 @@ def _bpm_scenario(S, k):
         for node in scn['profile']['current']['nodes']:
             if math.hypot(node[1], node[2]) < 0.03:
                 node[1] = 0.05                       # a crossflow that can advect the intrusion
+    if mix == 'inert':
+        for sp in scn['particles']:
+            sp['de'] = max(sp['de'], 2.e-3)          # rises to the surface well within the 14-day cap of the far-field tracking
     scn['track'] = track
     if k % 5 == 0 and len(scn['release']['tracers']) != 1:
         # the first scenario carries exactly one passive tracer (the configuration whose save file can be written and re-read)
@@ -2450,13 +2489,6 @@ def _scratch_profile_obj(S, prf):
 TABLE['tamoc.bent_plume_model.Model.simulate'] = lambda S: S.get('bpm_sims')
 
 
-def _crossflow_at_end(sim):
-    m = sim['model']
-    z = max(float(m.q[-1, 9]), 0.1)
-    ua, va = sim['prf'].get_values(z, ['ua', 'va'])
-    return math.hypot(ua, va) > 1e-6
-
-
 @entry('bent_plume_model.Model', 'bent_plume_model.Model.get_derived_variables', 'bent_plume_model.Model.save_sim',
        'bent_plume_model.Model.save_txt', 'bent_plume_model.Model.save_derived_variables', 'bent_plume_model.Model.load_sim',
        'bent_plume_model.Model.report_mass_fluxes', 'bent_plume_model.Model.report_surfacing_fluxes',
@@ -2478,9 +2510,14 @@ def _bpm_post(S):
         tracked = bool(scn['track'])
         # the report_* methods index every particle's masses with the compound list of particles[0]: a list that mixes soluble
         # and inert particles (a documented, simulated configuration) gets its own input kind / key
-        hetero = len(set(tuple(pt.composition) for pt in parts)) > 1
+        # classification from the scenario the harness generated (not from the objects under test)
+        spec_kinds = [sp['kind'] for sp in scn['particles']]
+        hetero = ('inert' in spec_kinds) and any(k_ != 'inert' for k_ in spec_kinds)
         hk = ':soluble+inert-particles' if hetero else ''
-        soluble = any(pt.particle.issoluble for pt in parts)
+        soluble = any(k_ != 'inert' for k_ in spec_kinds)
+        spec_fp = [0 if k_ == 'gas' else 1 for k_ in spec_kinds]            # scen_bpm.build_dbm: gas -> fp_type 0, liquid / inert -> 1
+        cur = scn['profile'].get('current')
+        crossflow = bool(cur) and min(math.hypot(nd[1], nd[2]) for nd in cur['nodes']) >= 0.03      # every current node of the spec
         # ---- LagElement.update at stored states (what every post-processing method is built on)
         for idx in sorted(set([0, nt // 2, nt - 1])):
             S.attempt('bent_plume_model.LagElement.update', kind, dict(scn, index=idx),
@@ -2509,9 +2546,12 @@ def _bpm_post(S):
                 # its far-field trajectory ends deeper than 50 m).  Exactly that pattern is accepted, nothing else.
                 exp = np.zeros(len(parts), dtype=bool)
                 for i, pt in enumerate(parts):
-                    if fps < 0 or pt.particle.fp_type == fps:
+                    if fps < 0 or spec_fp[i] == fps:
                         exp[i] = (pt.z >= 50.) if surfaced else ((not pt.farfield) or pt.sbm.y[-1, 2] >= 50.)
                 tp = np.array(tp, dtype=float)
+                sel = np.array([fps < 0 or f == fps for f in spec_fp])
+                if np.any(np.isfinite(tp) & sel & (tp > 0.)):
+                    S.reached('bpm:finite-surfacing-time')
                 if np.array_equal(np.isnan(tp), exp) and bool(np.isnan(tc_)) == (not surfaced):
                     tp, tc_ = np.where(exp, 0., tp), (0. if not surfaced else tc_)
                 return mp, mc, tp, tc_
@@ -2541,7 +2581,7 @@ def _bpm_post(S):
                 out = []
                 nvalues = 0
                 for fp0, d, v in ((True, d_gas, v_gas), (False, d_liq, v_liq)):
-                    exp = np.array([psd_expected(pt, loc) for pt in parts if (pt.particle.fp_type == 0) == fp0], dtype=bool)
+                    exp = np.array([psd_expected(pt, loc) for pt, f in zip(parts, spec_fp) if (f == 0) == fp0], dtype=bool)
                     d, v = np.array(d, dtype=float), np.array(v, dtype=float)
                     if d.shape == exp.shape and np.array_equal(np.isnan(d), exp) and np.array_equal(np.isnan(v), exp):
                         nvalues += int(np.sum(~exp))
@@ -2549,8 +2589,12 @@ def _bpm_post(S):
                     out += [d, v]
                 if need_value and nvalues == 0:
                     return model.report_psds(loc, 1)       # an all-NaN answer where a value is due is not accepted
+                if nvalues:
+                    S.reached('bpm:stage1-psd-value')
                 return out
             ff = [pt for pt in parts if pt.farfield and np.max(pt.sbm.y[:, 2]) == pt.sbm.y[0, 2]]
+            if not ff:
+                S.skip('tamoc.' + M + 'report_psds', 'tracked scenario without a particle that rose in the far field: no stage-1 value is due')
             if ff:
                 zl = float(r.choice(ff).sbm.y[0, 2]) + 0.5        # within 1 m of the start of a far-field trajectory: a value is due
                 S.attempt(M + 'report_psds', kind + ':stage1:at-exit-depth', dict(scn, loc=zl, stage=1), lambda: psd1(zl, True))
@@ -2559,7 +2603,7 @@ def _bpm_post(S):
         # ---- intrusion layer and far field (need a crossflow to advect the intrusion / the dissolved plume)
         if not soluble:
             S.skip('tamoc.' + M + 'get_intrusion_concentration', 'no soluble particle: there are no dissolved compounds to report')
-        elif _crossflow_at_end(sim):
+        elif crossflow:
             for _k in range(2):
                 S.attempt(M + 'get_intrusion_initial_condition', kind, scn, lambda: model.get_intrusion_initial_condition())
             zc = max(float(model.q[-1, 9]), 0.1)
@@ -2568,6 +2612,7 @@ def _bpm_post(S):
                 S.attempt(M + 'get_intrusion_concentration', hk[1:] if hetero else 'max_C=%s' % mc, dict(scn, x=x, max_C=mc),
                           lambda mc=mc: model.get_intrusion_concentration(x.copy(), max_C=mc), edge=hetero)
             if tracked and all(pt.farfield for pt in parts):
+                S.reached('bpm:far-field-of-every-particle')
                 for mc in (True, False):
                     S.attempt(M + 'get_grid_concentrations', hk[1:] if hetero else 'max_C=%s' % mc, dict(scn, x=x, max_C=mc),
                               lambda mc=mc: model.get_grid_concentrations(x.copy(), max_C=mc), edge=hetero)
@@ -2600,7 +2645,7 @@ def _bpm_post(S):
             os.remove(pth)
         # save_sim stores the tracer concentrations in one scalar slot: a release with no or with several passive tracers
         # (both simulate fine) gets its own input kind / key
-        ntr = len(model.tracers)
+        ntr = len(scn['release']['tracers'])          # from the scenario, not from the model
         if S.attempt(M + 'save_sim', kind if ntr == 1 else '%d-tracers' % ntr, scn,
                      lambda: model.save_sim(f_nc, 'profile.nc', 'C20 synthetic profile'), edge=(ntr != 1)) is not FAILED:
             m2 = bpm.Model(prf)
@@ -2620,13 +2665,19 @@ def _bpm_post(S):
         ql.update(model.t[nt // 2], model.q[nt // 2], prf, model.p, parts)
         i = parts.index(pt)
         Xp = np.array(ql.X_p[i], dtype=float)
+        if not np.all(np.isfinite(Xp)):
+            S.skip('tamoc.bent_plume_model.Particle.track', 'inside-the-plume case: the chosen particle has already left the plume at the middle row')
         if np.all(np.isfinite(Xp)):
             S.attempt('bent_plume_model.Particle.track', kind + ':inside', dict(scn, t_p=float(ql.t_p[i]), X_p=Xp),
                       lambda: pt.track(float(ql.t_p[i]), np.array([ql.x, ql.y, ql.z]), Xp.copy(), ql))
-        if not pt.integrate and hasattr(pt, 'te'):
+        if pt.integrate or not hasattr(pt, 'te'):
+            S.skip('tamoc.bent_plume_model.Particle.track', 'outside-the-plume case: the chosen particle is still inside at the middle row')
+        else:
             S.attempt('bent_plume_model.Particle.track', kind + ':outside', scn,
                       lambda: pt.track(float(ql.t_p[i]), np.array([ql.x, ql.y, ql.z]), Xp.copy(), ql))
         ffp = [q for q in parts if tracked and q.farfield and q.z > 0.]
+        if tracked and not ffp:
+            S.skip('tamoc.bent_plume_model.Particle.run_sbm', 'tracked scenario, but no particle is below the surface with a far-field solution')
         for j in range(2 if ffp else 0):
             p2 = ffp[j % len(ffp)]
             S.attempt('bent_plume_model.Particle.run_sbm', kind, dict(scn, particle=parts.index(p2)), lambda p2=p2: (p2.run_sbm(prf), p2.sbm.t, p2.sbm.y)[1:])
@@ -3134,7 +3185,8 @@ CALL_FLOOR = 2            # every entry point with a caller is called at least t
 # branches / configurations every run (quick included) has to reach at least once
 REACH_FLOORS = ['seawater:hot-branch', 'seawater:above-boiling', 'seawater.k:S>35', 'InsolubleParticle:rigid', 'InsolubleParticle:fluid',
                 'FluidParticle:gas', 'FluidParticle:liquid', 'FluidParticle:mixed-two-phase', 'sbm:soluble', 'sbm:inert',
-                'bpm:soluble', 'bpm:inert', 'bpm:tracked', 'spm:soluble', 'spm:inert', 'blowout:simulate', 'blowout:history-simulate',
+                'bpm:soluble', 'bpm:inert', 'bpm:tracked', 'spm:soluble', 'spm:inert', 'blowout:simulate', 'blowout:history-simulate', 'bpm:finite-surfacing-time', 'bpm:stage1-psd-value',
+                'bpm:far-field-of-every-particle',
                 'equilibrium:two-phase', 'equilibrium:single-phase']
 MIN_VERSIONS = {'numpy': (1, 16), 'scipy': (1, 2)}        # README.rst "Requirements" (re-read from the repo under test at run time)
 
@@ -3263,6 +3315,10 @@ def run(ctx, lean_ok):
     ctx.oblige('branches / configurations reached at least once: %s' % ', '.join(REACH_FLOORS), not missing, 'not reached: %r' % missing)
     ctx.oblige('every FluidParticle method was called on a particle that is two-phase at the state of the call', not mixed_missing,
                'not reached on a mixed-phase particle: %r' % mixed_missing)
+    ctx.oblige('feeds of the harness-owned two-phase table: the flash reports gas AND liquid every time (%d judged)'
+               % S.reach.get('table-feed:flash-two-phase', 0),
+               S.reach.get('table-feed:flash-SINGLE-PHASE', 0) == 0 and S.reach.get('table-feed:flash-two-phase', 0) >= 1,
+               '%d table feeds flashed to a single phase' % S.reach.get('table-feed:flash-SINGLE-PHASE', 0))
     for name, vmin in declared.items():
         ctx.oblige('installed %s %s >= declared minimum %s' % (name, versions[name], '.'.join(map(str, vmin))),
                    _version_tuple(versions[name]) >= tuple(vmin), '')
